@@ -104,6 +104,10 @@ struct Cfg {
   int nblocks = 0;           // BlockSyntax blocks on top of the background
   uint64_t block_seed = 1;
   int spectrum = 0;          // 0 monochromatic + fixed cross sections, 1 Planck + Verner
+  // non-zero metal abundances (with Verner data only): the path-length
+  // estimators of the twelve metal ions are non-zero then; helium stays 0 so
+  // that the opacity is hydrogen's alone
+  bool metals = false;
   int seed = 42;
   bool task_plot = false;
   bool initial_snapshot = false;
@@ -184,6 +188,7 @@ struct Cfg {
     j["tracker_variant"] = tracker_variant;
     j["fields_mask"] = fields_mask;
     j["tight_pools"] = tight_pools;
+    j["metals"] = metals;
     j["pool_slack"] = pool_slack;
     j["nbuffers"] = (long long)nbuffers;
     j["ntasks"] = (long long)ntasks;
@@ -233,6 +238,7 @@ struct Cfg {
     c.tracker_variant = (int)j.at("tracker_variant").as_int(0);
     c.fields_mask = (int)j.at("fields_mask").as_int(0);
     c.tight_pools = j.at("tight_pools").as_bool();
+    c.metals = j.at("metals").as_bool();
     c.pool_slack = (int)j.at("pool_slack").as_int(0);
     c.nbuffers = j.at("nbuffers").as_int(0);
     c.ntasks = j.at("ntasks").as_int(0);
@@ -381,6 +387,9 @@ struct Cfg {
     } else {
       o << "CrossSections:\n  type: Verner\n";
       o << "RecombinationRates:\n  type: Verner\n";
+      if (metals)
+        o << "AbundanceModel:\n  type: FixedValue\n  He: 0.\n  C: 2.2e-4\n  N: "
+             "4.e-5\n  O: 3.3e-4\n  Ne: 5.e-5\n  S: 9.e-6\n";
     }
     o << "TemperatureCalculator:\n  do temperature calculation: "
       << (temperature ? "true" : "false") << "\n";
